@@ -835,10 +835,16 @@ class ExcelCompiler:
             if cell_range.address.is_unbounded_range:
                 bounded_addr = str(self.eval(cell_range))
                 bounded_addr_cell = self.cell_map.get(bounded_addr)
-                if not bounded_addr_cell.address.is_range:
-                    data = ((self._evaluate(bounded_addr), ), )
-                else:
-                    data = self._evaluate_range(bounded_addr)
+                try:
+                    if not bounded_addr_cell.address.is_range:
+                        data = ((self._evaluate(bounded_addr), ), )
+                    else:
+                        data = self._evaluate_range(bounded_addr)
+                except Exception:
+                    if self.cycles:
+                        # eval() marked the reference as work in progress
+                        cell_range.wip = False
+                    raise
 
             elif cell_range.formula is None:
                 data = tuple(
